@@ -28,10 +28,10 @@ Record enum_def := mkenum {
   en_maxindex : Z;                     (* stored field SignalEnum.maxIndex *)
   en_minsize : Z }.
 
-(* helpers.go calcSizeFromValue (64-bit int; the `1<<63` wrap of D12 is mirrored) *)
+(* helpers.go calcSizeFromValue (64-bit int compared as uint64: a negative value needs 64 bits) *)
 Definition calc_size_from_value (v : Z) : Z :=
-  if v =? 0 then 1 else if v <? 0 then 0
-  else if v <? 2 ^ 62 then Z.log2 v + 1 else 64.
+  if v =? 0 then 1 else if v <? 0 then 64
+  else if v <? 2 ^ 63 then Z.log2 v + 1 else 64.
 (* helpers.go calcValueFromSize *)
 Definition calc_value_from_size (s : Z) : Z :=
   if s <=? 0 then 1 else if s <? 63 then 2 ^ s else if s =? 63 then - 2 ^ 63 else 0.
